@@ -38,6 +38,41 @@ CREDS = [[], ['x'], ['y'], ['x', 'y']]
 DCFGS = ['unset', 'ctor_default', 'ctor_other', 'ctor_ghost', 'obj_true', 'obj_false', 'obj_role', 'opt_b', 'opt_empty']
 VIAS = ['set_rules', 'ctor', 'file', 'set_rules+own-default', 'ctor+own-default', 'set_rules+own-ghost']
 QUERIES = ['a', 'b', 'default', 'ghost', 'zzz']
+# ---- routes on which the enforcer uses a rule store AS IT IS: `enforcer.rules = store` -----------------------------
+# the store is built by a public constructor of Rules (dictionary / JSON text / the deprecated load_json) WITHOUT a
+# default_rule argument or with an explicit one; set_rules() and Enforcer(rules=...) re-wrap a store, attribute
+# assignment does not: the default rule that is configured is the one the store was built with - none when no
+# default_rule argument was given (then unknown names deny although a rule called `default` may exist and allow)
+AS_BUILDERS = ['from_dict', 'load', 'load_json']
+# how the store's default rule is given -> the default-rule configuration the reference function decides with
+AS_OWN = {'omitted': 'opt_empty', 'none': 'opt_empty', 'default': 'ctor_default', 'b': 'ctor_other', 'ghost': 'ctor_ghost',
+          'obj_true': 'obj_true', 'obj_role': 'obj_role'}
+ASSIGN_VIAS = ['assign/%s/%s' % (b, o) for b in AS_BUILDERS for o in AS_OWN]
+
+
+def governing(dcfg, via):
+    """The default-rule configuration that decides unknown names: the enforcer's own on every route that hands the rules
+    to the enforcer; the store's own when the store is assigned to `enforcer.rules` and used as it is."""
+    if via.startswith('assign/'):
+        return AS_OWN[via.split('/')[2]]
+    return dcfg
+
+
+def build_store(rules, via):
+    """A Rules object from one of the public constructors, its default rule omitted or explicit."""
+    import warnings
+    from oslo_policy import policy, _checks
+    _, builder, own = via.split('/')
+    args = {'omitted': (), 'none': (None,), 'default': ('default',), 'b': ('b',), 'ghost': ('ghost',),
+            'obj_true': (_checks.TrueCheck(),), 'obj_role': (_checks.RoleCheck('role', 'x'),)}[own]
+    if builder == 'from_dict':
+        return policy.Rules.from_dict(materialise(rules), *args)
+    text = json.dumps(materialise(rules), indent=1)
+    if builder == 'load':
+        return policy.Rules.load(text, *args)
+    with warnings.catch_warnings():
+        warnings.simplefilter('ignore', DeprecationWarning)      # load_json is deprecated, and public
+        return policy.Rules.load_json(text, *args)
 
 
 def body_value(b, roles):
@@ -93,6 +128,10 @@ def build(rules, dcfg, via):
         tree = files.Tree(dirs=())
         tree.write(os.path.basename(tree.main), materialise(rules), 'json')
         enf = policy.Enforcer(tree.conf(policy_dirs=[], **overrides), **kw)
+    elif via.startswith('assign/'):
+        # the store is used as it is (attribute assignment, as some services do): its own default rule is the configured one
+        enf = policy.Enforcer(env.fresh_conf(policy_dirs=[], **overrides), use_conf=False, **kw)
+        enf.rules = build_store(rules, via)
     else:
         conf = env.fresh_conf(policy_dirs=[], **overrides)
         # a Rules object may carry a default of its own (Rules.load(data, 'default'), a store borrowed from another
@@ -117,9 +156,10 @@ def check_config(ctx, rules, dcfg, via, debug=False):
         dbg.__enter__()
         ctx.count('configs_under_debug_logging')
     try:
+        assigned = via.startswith('assign/')
         for q in QUERIES:
             for roles in CREDS:
-                want = reference(rules, dcfg, q, roles)
+                want = reference(rules, governing(dcfg, via), q, roles)
                 for do_raise in (False, True):
                     try:
                         got = enf.enforce(q, {}, {'roles': list(roles)}, do_raise=do_raise)
@@ -133,6 +173,12 @@ def check_config(ctx, rules, dcfg, via, debug=False):
                     ctx.case(row, nontrivial=fallback)
                     if fallback:
                         ctx.count('fallback_rows')
+                    if assigned:
+                        ctx.count('assigned_store_decisions')
+                        if fallback and via.endswith('/omitted'):
+                            ctx.count('assigned_store_unknown_name_no_default_argument')
+                            if 'default' in rules and body_value(rules['default'], roles):
+                                ctx.count('assigned_store_unknown_name_no_default_argument_rule_named_default_allows')
                     ctx.count('allow_decisions' if got is True else 'deny_decisions' if got is False else 'exceptions')
                     if got != want:
                         if isinstance(got, str):
@@ -146,7 +192,8 @@ def check_config(ctx, rules, dcfg, via, debug=False):
                         else:
                             key = 'usable-default-not-applied'
                         ctx.violation(key, dict(rules=rules, dcfg=dcfg, via=via, debug=debug),
-                                      {'row': row, 'expected': want, 'observed': got, 'library_debug_logging': debug})
+                                      {'row': row, 'expected': want, 'observed': got, 'library_debug_logging': debug,
+                                       'default_rule_that_governs': governing(dcfg, via)})
         ctx.observe('configs', '%s/%s' % (dcfg, via))
     finally:
         if dbg:
@@ -401,6 +448,57 @@ def gen_policy_dirs(layout, dopt, steps, r):
     return dict(policy_dirs=True, layout=layout, main=main, dirs=dirs, dcfg=dcfg, ops=ops)
 
 
+def pd_view(cur_dirs):
+    """What the files of the directories say with symbolic links followed: an entry ['link', j, fn] stands for a link to
+    file fn of configured directory j (whatever that file says now)."""
+    return [None if d is None else {fn: (cur_dirs[m[1]][m[2]] if isinstance(m, list) else m) for fn, m in d.items()}
+            for d in cur_dirs]
+
+
+def gen_policy_dirs_links(layout, dopt, steps, r):
+    """A configuration of gen_policy_dirs in which some things are SYMBOLIC LINKS (available/enabled layouts, ConfigMap
+    mounts, links kept by configuration management): directory files that are links to regular files kept elsewhere in the
+    tree (outside every policy directory), extra directory files that are links to a file of another policy directory, and
+    configured directories that are themselves links to a directory.  Every link points to something that exists."""
+    case = gen_policy_dirs(layout, dopt, steps, r)
+    dirs = case['dirs']
+    fdirs = [i for i, s in enumerate(layout) if s == 'F']
+    existing = [i for i, s in enumerate(layout) if s != 'M']
+    mode = r.choice(['outside', 'outside', 'other', 'dir', 'mixed', 'mixed'])
+    if mode == 'other' and len(existing) < 2:
+        mode = 'outside'
+    outside, aliases, dir_links = [], [], []
+    if mode in ('outside', 'mixed'):
+        for i in fdirs:
+            for fn in sorted(dirs[i]):
+                if r.random() < 0.6:
+                    outside.append([i, fn, r.random() < 0.3])            # [directory, file, absolute link text]
+        if not outside:
+            outside.append([r.choice(fdirs), 'a.yaml', False])
+    if mode in ('other', 'mixed') and len(existing) > 1:
+        for _ in range(r.choice([1, 2])):
+            j = r.choice(fdirs)
+            i = r.choice([x for x in existing if x != j])
+            nm = r.choice(['c.yaml', '0.yaml'])                          # read after / before the directory's own files
+            if not any(a[0] == i and a[1] == nm for a in aliases):
+                aliases.append([i, nm, j, r.choice(['a.yaml', 'b.yaml']), r.random() < 0.3])
+    if mode in ('dir', 'mixed'):
+        dir_links = [[i, r.random() < 0.3] for i in existing if r.random() < 0.5]
+        if mode == 'dir' and not dir_links:
+            dir_links = [[r.choice(existing), False]]
+    ops = [list(o) for o in case['ops']]
+    if aliases and r.random() < 0.4:
+        a = r.choice(aliases)
+        ops.insert(r.randrange(len(ops) + 1), ['delete', a[0], a[1]])      # a link is taken away ("disabled"); its target stays
+    if outside and r.random() < 0.5:
+        i, fn, _ = r.choice(outside)
+        ops.insert(r.randrange(len(ops) + 1),                              # the link is pointed at a new file kept outside
+                   ['relink', i, fn, {k: r.choice(['!', 'role:x', 'role:y', '@']) for k in dirs[i][fn]}, r.random() < 0.3])
+    case['ops'] = ops
+    case['linked'] = dict(mode=mode, outside=outside, aliases=aliases, dir_links=dir_links)
+    return case
+
+
 def check_policy_dirs(ctx, case):
     """Two or three configured policy directories (some missing on disk, some empty), with and without a main file: after
     the first load and after every step of a short history (a directory file rewritten or added, a file deleted, a forced
@@ -408,19 +506,61 @@ def check_policy_dirs(ctx, case):
     define - a name defined in any of the directories by its own definition, never by the (usually permissive) default."""
     from oslo_policy import policy
     dcfg = case['dcfg']
+    # symbolic links (absent in the plain layouts): the current regular file behind a directory file that is a link to a
+    # file kept outside the policy directories; the configured directories that are links to a directory
+    linked = case.get('linked') or {}
+    dir_links = {i: bool(ab) for i, ab in linked.get('dir_links', ())}
+    link_abs = {(i, fn): bool(ab) for i, fn, ab in linked.get('outside', ())}
+    outside = {}
     tree = files.Tree(dirs=())
     try:
         names = ['pd%d' % i for i in range(len(case['dirs']))]
         cur_dirs = []
-        for nm, d in zip(names, case['dirs']):
+
+        def put_outside(i, fn, mapping, absolute):
+            tree.mkdir('store')
+            rel = 'store/%s-%s.%d' % (names[i], fn, tree.tick())
+            tree.write(rel, materialise(mapping), 'json')
+            if os.path.lexists(tree.path(names[i] + '/' + fn)):
+                tree.delete(names[i] + '/' + fn)
+            tree.symlink(names[i] + '/' + fn, rel, absolute)
+            outside[(i, fn)] = rel
+
+        def dependents(i, fn):
+            return [(x, f) for x, d in enumerate(cur_dirs) if d for f, m in d.items()
+                    if isinstance(m, list) and m[1] == i and m[2] == fn]
+
+        def refresh(i, fn):
+            for x, f in dependents(i, fn):               # the file behind these links changed: they carry the new time too
+                tree.touch(names[x] + '/' + f)
+
+        def remove(i, fn):
+            for x, f in dependents(i, fn):               # links to a file go away with it: never a dangling link
+                remove(x, f)
+            del cur_dirs[i][fn]
+            outside.pop((i, fn), None)
+            tree.delete(names[i] + '/' + fn)             # (a link is unlinked; what it pointed to stays where it is)
+
+        for i, (nm, d) in enumerate(zip(names, case['dirs'])):
             if d is None:
                 cur_dirs.append(None)
                 continue
-            tree.mkdir(nm)
+            if i in dir_links:
+                tree.mkdir('real')
+                tree.mkdir('real/' + nm)
+                tree.symlink(nm, 'real/' + nm, dir_links[i])      # the configured path itself is a link to a directory
+            else:
+                tree.mkdir(nm)
             cur_dirs.append({})
             for fn in sorted(d):
-                tree.write(nm + '/' + fn, materialise(d[fn]), 'json')
+                if (i, fn) in link_abs:
+                    put_outside(i, fn, d[fn], link_abs[(i, fn)])
+                else:
+                    tree.write(nm + '/' + fn, materialise(d[fn]), 'json')
                 cur_dirs[-1][fn] = dict(d[fn])
+        for i, fn, j, fn2, ab in linked.get('aliases', ()):
+            tree.symlink(names[i] + '/' + fn, names[j] + '/' + fn2, bool(ab))
+            cur_dirs[i][fn] = ['link', j, fn2]
         cur_main = None
         if case['main'] is not None:
             cur_main = dict(case['main'])
@@ -430,20 +570,37 @@ def check_policy_dirs(ctx, case):
         ctx.case(case, nontrivial=True, stratum='policy_dirs')
         for op in [['load']] + [list(o) for o in case['ops']]:
             if op[0] == 'write':
+                if isinstance(cur_dirs[op[1]].get(op[2]), list):
+                    remove(op[1], op[2])                  # a link to another directory's file is replaced by a file of its own
                 cur_dirs[op[1]][op[2]] = dict(op[3])
-                tree.write(names[op[1]] + '/' + op[2], materialise(op[3]), 'json')
+                if (op[1], op[2]) in outside:
+                    # the file behind the link is rewritten where it is kept; target, its directory, the link's directory advance
+                    tree.write(outside[(op[1], op[2])], materialise(op[3]), 'json')
+                    tree.touch(names[op[1]] + '/' + op[2])
+                else:
+                    tree.write(names[op[1]] + '/' + op[2], materialise(op[3]), 'json')
+                refresh(op[1], op[2])
             elif op[0] == 'delete':
-                del cur_dirs[op[1]][op[2]]
-                tree.delete(names[op[1]] + '/' + op[2])
+                if not linked or op[2] in cur_dirs[op[1]]:
+                    remove(op[1], op[2])
+            elif op[0] == 'relink':
+                # the directory file becomes (or stays) a link, now to a NEW file kept outside the policy directories
+                put_outside(op[1], op[2], op[3], bool(op[4]))
+                cur_dirs[op[1]][op[2]] = dict(op[3])
+                refresh(op[1], op[2])
             elif op[0] == 'write-main':
                 cur_main = dict(op[1])
                 tree.write(os.path.basename(tree.main), materialise(cur_main), 'json')
             elif op[0] == 'force':
                 enf.load_rules(force_reload=True)
-            eff = pd_fold(cur_main, cur_dirs)
+            view = pd_view(cur_dirs)                      # the fold of the current files follows links
+            eff = pd_fold(cur_main, view)
             live = [i for i, d in enumerate(cur_dirs) if d is not None]
             for q in PD_QUERIES:
-                homes = [i for i in live if any(q in m for m in cur_dirs[i].values())]
+                homes = [i for i in live if any(q in m for m in view[i].values())]
+                holders = [(i, fn) for i in live for fn in view[i] if q in view[i][fn]] if linked else []
+                only_links = bool(holders) and q not in (cur_main or {}) and all(
+                    h in outside or isinstance(cur_dirs[h[0]][h[1]], list) for h in holders)
                 for roles in CREDS:
                     want = reference(eff, dcfg, q, roles)
                     try:
@@ -453,6 +610,12 @@ def check_policy_dirs(ctx, case):
                     ctx.count('policy_dirs_decisions')
                     if len(homes) == 1 and homes[0] != live[-1]:
                         ctx.count('policy_dirs_decisions_name_only_in_earlier_directory')
+                    if linked:
+                        ctx.count('policy_dirs_decisions_with_symlinks')
+                        if only_links:
+                            ctx.count('policy_dirs_decisions_name_only_in_symlinked_files')
+                        if dir_links:
+                            ctx.count('policy_dirs_decisions_symlinked_directory')
                     if got != want:
                         if isinstance(got, str):
                             key = 'unknown-name-raises' if q not in eff else 'defined-name-raises'
@@ -468,9 +631,13 @@ def check_policy_dirs(ctx, case):
                                                   'current_main_file': cur_main, 'current_directories': cur_dirs,
                                                   'effective_rules': eff, 'default_config': dcfg, 'queried': q,
                                                   'defined_in_directories': homes, 'roles': roles,
-                                                  'expected': want, 'observed': got})
+                                                  'expected': want, 'observed': got,
+                                                  'symbolic_links': dict(linked, files_kept_outside_now={
+                                                      '%s/%s' % (names[i], fn): rel for (i, fn), rel in sorted(outside.items())},
+                                                      queried_name_defined_only_in_symlinked_files=only_links) if linked else None})
                         return
-        ctx.observe('policy_dir_layouts', '%s/%s/%s' % (case['layout'], dcfg, 'main' if case['main'] is not None else 'no-main'))
+        ctx.observe('policy_dir_layouts', '%s/%s/%s%s' % (case['layout'], dcfg, 'main' if case['main'] is not None else 'no-main',
+                                                          '/links-' + linked['mode'] if linked else ''))
     finally:
         tree.cleanup()
 
@@ -594,6 +761,28 @@ def run(ctx):
                                 'role_sets': CREDS})
     ctx.sample({'rules': {'a': '!'}, 'default_config': 'ctor_ghost', 'installed_via': 'set_rules', 'queried': QUERIES})
     ctx.stratum('table', exhaustive=done)
+    # ---- the same table on the routes that use a rule store as it is (enforcer.rules = store) ---------------------
+    # the configuration of the enforcer itself does not matter on these routes; it rotates through all of them in the quick
+    # tier (every (route, configuration) pair occurs with many rule sets) and is enumerated in the thorough tier
+    aidx = 0
+    adone = True
+    ctx.reserve(0.47)
+    for ri, (ba, bb, bd) in enumerate(itertools.product(BODIES, repeat=3)):
+        rules = {k: v for k, v in (('a', ba), ('b', bb), ('default', bd)) if v is not None}
+        for vi, via in enumerate(ASSIGN_VIAS):
+            for di, dcfg in enumerate(DCFGS):
+                if ctx.tier == 'quick' and (ri + vi) % len(DCFGS) != di:
+                    continue
+                aidx += 1
+                if not ctx.mine(aidx):
+                    continue
+                if ctx.expired():
+                    adone = False
+                    break
+                check_config(ctx, rules, dcfg, via, debug=(aidx // ctx.nshards) % 5 == 1)
+    ctx.stratum('assigned_store', exhaustive=adone and ctx.tier == 'thorough')
+    ctx.sample({'rules': {'a': '!', 'default': '@'}, 'default_config': 'unset', 'installed_via': 'assign/load/omitted', 'queried': QUERIES,
+                'role_sets': CREDS}, 'assigned_store')
     # ---- the rule set changes under a living enforcer -------------------------
     changes = [{'default': '!'}, {'default': '@'}, {'b': '@'}, {'b': '!'}, {'default': 'role:y', 'a': '@'}, {'a': 'role:x'}, {'ghost': '@'}]
     midx = 0
@@ -647,7 +836,20 @@ def run(ctx):
                     pidx += 1
                     if ctx.mine(pidx):
                         check_policy_dirs(ctx, gen_policy_dirs(layout, dopt, steps, ctx.sub_rnd('PD', ctx.tier, li, di, si, rep)))
+    # the same layouts with symbolic links (files that are links to files kept elsewhere or in another policy directory,
+    # configured directories that are links); quick: the (layout, default, history) combinations the plain loop left out
+    lidx = 0
+    for li, layout in enumerate(PD_LAYOUTS):
+        for di, dopt in enumerate(PD_DEFAULTS):
+            for si, steps in enumerate(PD_STEPS):
+                if ctx.tier == 'quick' and (li + di + si) % 2 == 0:
+                    continue
+                for rep in range(PD_REPS[ctx.tier]):
+                    lidx += 1
+                    if ctx.mine(lidx):
+                        check_policy_dirs(ctx, gen_policy_dirs_links(layout, dopt, steps, ctx.sub_rnd('PDL', ctx.tier, li, di, si, rep)))
     ctx.stratum('policy_dirs', exhaustive=False)
+    ctx.sample(gen_policy_dirs_links('FEF', PD_DEFAULTS[0], ['edit', 'delete'], ctx.sub_rnd('PDL', 'sample')), 'policy_dirs')
     ctx.sample(gen_policy_dirs('FMF', PD_DEFAULTS[1], ['edit', 'delete'], ctx.sub_rnd('PD', 'sample')), 'policy_dirs')
     ctx.sample(dict(rules={'a': 'role:x', 'default': '@'}, dcfg='unset', mutation='merge-set_rules', change={'default': '!'}), 'mutation')
     # ---- two overlapping decisions, last (the line-level scheduler slows everything that runs after it is installed)
